@@ -1,6 +1,7 @@
 package main
 
 import (
+	"context"
 	"encoding/json"
 	"fmt"
 	"math"
@@ -10,6 +11,9 @@ import (
 	"sync"
 	"time"
 
+	"github.com/iden3/go-iden3-crypto/constants"
+	"github.com/iden3/go-merkletree-sql/v2"
+	"github.com/iden3/go-merkletree-sql/v2/db/memory"
 	"github.com/iden3/go-schema-processor/v2/merklize"
 	"github.com/piprate/json-gold/ld"
 )
@@ -500,6 +504,10 @@ func (g *c04gen) run(tier string, n int) {
 				Tags: []string{"dt:boolean", "h:" + hs.Name, "go-typed"}, NT: true})
 		}
 	}
+	// (3b) values as they reach a tree: batches of entries whose spellings coincide across kinds
+	for i := 0; i < n/3+20; i++ {
+		g.treeBatch()
+	}
 	// (4) dateTime
 	g.times(tier, n)
 	// (5) double and other types
@@ -746,6 +754,526 @@ func (g *c04gen) doublesAndStrings(tier string, n int) {
 		g.out.Emit(Case{Op: "xsd.hash", In: J{"h": "poseidon", "dt": xsdNS + "string", "val": J{"k": "other"}}, Impl: impl,
 			Prop: judge(impl, "err"), Tags: []string{"go:unsupported", "malformed"}, NT: true})
 	}
+}
+
+// ---------- values as they reach a tree ----------
+
+// recTree is a tree that only remembers what it is given
+type recTree struct{ keys, vals []*big.Int }
+
+func (t *recTree) Add(_ context.Context, k, v *big.Int) error {
+	if k == nil || v == nil {
+		return fmt.Errorf("nil key or value")
+	}
+	t.keys = append(t.keys, new(big.Int).Set(k))
+	t.vals = append(t.vals, new(big.Int).Set(v))
+	return nil
+}
+
+// one value of a batch: what it is (Go value or typed literal), under which hasher, and the statement's encoding of it
+type batchItem struct {
+	hs    HSpec
+	val   any    // hand-made entries: the Go value given to NewRDFEntry
+	dt    string // dataset entries: the literal's datatype (full IRI); "" for hand-made ones
+	lex   string // dataset entries: the literal's lexical form
+	want  any    // *big.Int, or "err" (outside every integer range)
+	desc  string
+	entry merklize.RDFEntry
+}
+
+// the statement's encodings, computed with math/big and the hasher's two primitives only
+func stmtEncBool(hs HSpec, b bool) *big.Int {
+	x := int64(0)
+	if b {
+		x = 1
+	}
+	h, _ := hs.H.Hash([]*big.Int{big.NewInt(x)})
+	return h
+}
+
+func stmtEncStr(hs HSpec, s string) *big.Int {
+	h, _ := hs.H.HashBytes([]byte(s))
+	return h
+}
+
+func stmtEncTime(hs HSpec, t time.Time) *big.Int {
+	x := new(big.Int).Mul(big.NewInt(t.Unix()), big.NewInt(1_000_000_000))
+	x.Add(x, big.NewInt(int64(t.Nanosecond())))
+	return x.Mod(x, hs.Prime)
+}
+
+// an integer without a datatype: inside [-(p-1)/2, (p-1)/2] every integer type that admits its sign encodes it as v / p+v;
+// at p or above, and below -(p-1)/2, it is outside every type's range. What lies between is not generated.
+func stmtEncUntypedInt(hs HSpec, v *big.Int) any {
+	lo, hi := stmtRange("integer", hs.Prime)
+	if v.Cmp(lo) >= 0 && v.Cmp(hi) <= 0 {
+		return stmtEncInt(v, hs.Prime)
+	}
+	return "err"
+}
+
+func (g *c04gen) batchInt(hs HSpec, oor bool) *big.Int {
+	r := g.r
+	lo, hi := stmtRange("integer", hs.Prime)
+	if oor {
+		if r.Bool() {
+			return new(big.Int).Add(hs.Prime, big.NewInt(int64(r.Intn(50))))
+		}
+		return new(big.Int).Sub(lo, big.NewInt(int64(1+r.Intn(50))))
+	}
+	var v *big.Int
+	switch r.Intn(6) {
+	case 0:
+		v = big.NewInt(int64(r.Intn(3)))
+	case 1:
+		v = big.NewInt(int64(r.Intn(200)) - 100)
+	case 2:
+		v = new(big.Int).Sub(hi, big.NewInt(int64(r.Intn(3))))
+	case 3:
+		v = new(big.Int).Add(lo, big.NewInt(int64(r.Intn(3))))
+	case 4:
+		v = big.NewInt(int64(r.U64()>>uint(1+r.Intn(62))) * int64(1-2*r.Intn(2)))
+	default:
+		v = new(big.Int).Add(lo, r.BigBelow(new(big.Int).Add(new(big.Int).Sub(hi, lo), big.NewInt(1))))
+	}
+	if v.Cmp(lo) < 0 || v.Cmp(hi) > 0 {
+		v = big.NewInt(int64(r.Intn(3)) - 1)
+		if v.Cmp(lo) < 0 || v.Cmp(hi) > 0 {
+			v = big.NewInt(0)
+		}
+	}
+	return v
+}
+
+func (g *c04gen) batchTime() time.Time {
+	r := g.r
+	y := []int{1, 1677, 1969, 1970, 1971, 2000, 2024, 2038, 2262, 2263, 9999}[r.Intn(11)]
+	if r.Chance(50) {
+		y = 1 + r.Intn(9999)
+	}
+	ns := 0
+	if r.Chance(60) {
+		ns = r.Intn(1_000_000_000)
+		if r.Chance(40) {
+			ns = ns / 1_000_000 * 1_000_000
+		}
+	}
+	loc := time.UTC
+	if r.Chance(50) {
+		loc = time.FixedZone("", (r.Intn(1679)-839)*60)
+	}
+	return time.Date(y, time.Month(1+r.Intn(12)), 1+r.Intn(28), r.Intn(24), r.Intn(60), r.Intn(60), ns, loc)
+}
+
+// Go integer carriers of one value
+func intCarriers(v *big.Int, r *Rng) []any {
+	out := []any{new(big.Int).Set(v)}
+	if v.IsInt64() {
+		out = append(out, v.Int64())
+		if i := v.Int64(); int64(int(i)) == i {
+			out = append(out, int(i))
+		}
+	}
+	p := r.Perm(len(out))
+	res := make([]any, len(out))
+	for i, j := range p {
+		res[i] = out[j]
+	}
+	return res
+}
+
+// treeBatch: the element stored for a value is the statement's encoding of that value - whatever else goes into the tree in the
+// same call, in whatever order. A batch holds values of different kinds whose spellings coincide (the boolean true and the
+// string "true", the integer 42 in its Go carriers and the string "42", an instant, the strings that print it and the integer
+// of its nanoseconds, the same things as typed literals of a dataset), made by hand (NewRDFEntry, with and without options)
+// or taken from a dataset, possibly under two hashers. Every entry on its own, the stand-alone Value, what AddEntriesToMerkleTree
+// hands to the tree, and a proof from a real tree must all show the statement's encoding; an integer outside every range must
+// make the entry and the whole call fail.
+func (g *c04gen) treeBatch() {
+	r := g.r
+	all := []HSpec{hPoseidon(), hSalted(), hShifted(), hSmall(251), hSmall(65537), hSmall(2305843009213693951)}
+	hs1 := all[r.Intn(len(all))]
+	hs2 := hs1
+	if r.Chance(25) {
+		hs2 = all[r.Intn(len(all))]
+	}
+	pickH := func() HSpec {
+		if r.Chance(35) {
+			return hs2
+		}
+		return hs1
+	}
+	var items []batchItem
+	hand := func(hs HSpec, v any, want any) {
+		items = append(items, batchItem{hs: hs, val: v, want: want, desc: fmt.Sprintf("%T %v", v, v)})
+	}
+	lit := func(hs HSpec, dt, lex string, want any) {
+		items = append(items, batchItem{hs: hs, dt: xsdNS + dt, lex: lex, want: want, desc: fmt.Sprintf("%q^^xsd:%s", lex, dt)})
+	}
+	// the same text as a string, by hand and/or as a literal
+	str := func(hs HSpec, s string) {
+		if r.Chance(75) {
+			hand(hs, s, stmtEncStr(hs, s))
+		}
+		if r.Chance(30) {
+			lit(hs, r.Pick([]string{"string", "anyURI", "token"}), s, stmtEncStr(hs, s))
+		}
+	}
+	hasOOR := false
+	groups := 1 + r.Intn(4)
+	for gi := 0; gi < groups; gi++ {
+		hs := pickH()
+		twins := r.Chance(80)
+		switch r.Intn(5) {
+		case 0: // boolean
+			b := r.Bool()
+			if r.Chance(80) {
+				hand(hs, b, stmtEncBool(hs, b))
+			}
+			if r.Chance(30) {
+				lit(hs, "boolean", fmt.Sprint(b), stmtEncBool(hs, b))
+			}
+			if twins {
+				str(pickH(), fmt.Sprint(b))
+				if r.Chance(30) {
+					x := int64(0)
+					if b {
+						x = 1
+					}
+					h := pickH()
+					hand(h, x, stmtEncUntypedInt(h, big.NewInt(x)))
+				}
+			}
+		case 1, 2: // integer
+			oor := r.Chance(12)
+			v := g.batchInt(hs, oor)
+			cs := intCarriers(v, r)
+			k := 1 + r.Intn(len(cs))
+			for _, c := range cs[:k] {
+				h := hs
+				if !oor && r.Chance(25) {
+					h = pickH()
+				}
+				w := stmtEncUntypedInt(h, v)
+				if w == "err" && !oor {
+					continue // in range under one hasher only: keep the batch's outcome unambiguous
+				}
+				hand(h, c, w)
+			}
+			if oor {
+				hasOOR = true
+			} else if r.Chance(30) {
+				if w := stmtEncUntypedInt(hs, v); w != "err" {
+					dt := "integer"
+					if v.Sign() > 0 && r.Bool() {
+						dt = r.Pick([]string{"positiveInteger", "nonNegativeInteger"})
+					} else if v.Sign() < 0 && r.Bool() {
+						dt = r.Pick([]string{"negativeInteger", "nonPositiveInteger"})
+					}
+					lit(hs, dt, v.String(), w)
+				}
+			}
+			if twins {
+				str(pickH(), v.String())
+			}
+		case 3: // instant
+			t := g.batchTime()
+			hand(hs, t, stmtEncTime(hs, t))
+			if r.Chance(40) {
+				// the same instant in another zone: another spelling, the same element
+				t2 := t.In(time.FixedZone("", (r.Intn(1679)-839)*60))
+				h := pickH()
+				hand(h, t2, stmtEncTime(h, t))
+			}
+			if r.Chance(30) {
+				lit(hs, "dateTime", t.Format(time.RFC3339Nano), stmtEncTime(hs, t))
+			}
+			if twins {
+				if r.Chance(70) {
+					str(pickH(), t.String())
+				}
+				if r.Chance(50) {
+					str(pickH(), t.Format(time.RFC3339Nano))
+				}
+				if t.Year() > 1678 && t.Year() < 2262 && r.Chance(40) {
+					// the integer of its nanoseconds is an integer
+					h := pickH()
+					x := big.NewInt(t.UnixNano())
+					if w := stmtEncUntypedInt(h, x); w != "err" {
+						hand(h, x.Int64(), w)
+						if r.Bool() {
+							str(pickH(), x.String())
+						}
+					}
+				}
+			}
+		default: // text, twice
+			s := r.Pick([]string{"a", "true", "false", "0", "1", "-1", "42", "1.5", "<nil>", "%v", "2024-02-29 12:30:00 +0000 UTC", "hello world", "ünï©ödé", "urn:x:y"})
+			hs := hs
+			hand(hs, s, stmtEncStr(hs, s))
+			if twins {
+				str(pickH(), s)
+			}
+		}
+	}
+	if len(items) == 0 {
+		return
+	}
+	// order of the call
+	pm := r.Perm(len(items))
+	sh := make([]batchItem, len(items))
+	for i, j := range pm {
+		sh[i] = items[j]
+	}
+	items = sh
+
+	var why []string
+	fail := func(f string, a ...any) { why = append(why, fmt.Sprintf(f, a...)) }
+
+	// make the entries: literals through one dataset per hasher, the others by hand
+	perH := map[string][]int{}
+	var hOrder []string
+	for i, it := range items {
+		if it.dt != "" {
+			if _, ok := perH[it.hs.Name]; !ok {
+				hOrder = append(hOrder, it.hs.Name)
+			}
+			perH[it.hs.Name] = append(perH[it.hs.Name], i)
+		}
+	}
+	made := make([]bool, len(items))
+	for _, hn := range hOrder {
+		idx := perH[hn]
+		hs := items[idx[0]].hs
+		ds := ld.NewRDFDataset()
+		var qs []*ld.Quad
+		for _, i := range idx {
+			qs = append(qs, &ld.Quad{Subject: ld.NewIRI("urn:c04:s"), Predicate: ld.NewIRI(fmt.Sprintf("urn:c04:l%d", i)), Object: ld.NewLiteral(items[i].lex, items[i].dt, "")})
+		}
+		ds.Graphs["@default"] = qs
+		ents, err := guard(5*time.Second, func() ([]merklize.RDFEntry, error) { return merklize.EntriesFromRDFWithHasher(ds, hs.H) })
+		if err != nil {
+			fail("dataset of in-range literals %v is rejected under %s: %v", func() (d []string) {
+				for _, i := range idx {
+					d = append(d, items[i].desc)
+				}
+				return
+			}(), hs.Name, err)
+			continue
+		}
+		for _, e := range ents {
+			parts := e.VerifKeyParts()
+			if len(parts) != 1 {
+				continue
+			}
+			for _, i := range idx {
+				if parts[0] == fmt.Sprintf("urn:c04:l%d", i) && !made[i] {
+					items[i].entry, made[i] = e, true
+				}
+			}
+		}
+		for _, i := range idx {
+			if !made[i] {
+				fail("literal %s of the dataset has no entry", items[i].desc)
+			}
+		}
+	}
+	for i := range items {
+		it := &items[i]
+		if it.dt != "" {
+			continue
+		}
+		var p merklize.Path
+		var e merklize.RDFEntry
+		var err error
+		if it.hs.Name == "poseidon" && r.Bool() {
+			// the package-level constructors: the default hasher (nothing in this generator replaces it)
+			if p, err = merklize.NewPath(fmt.Sprintf("urn:c04:h%d", i)); err == nil {
+				e, err = merklize.NewRDFEntry(p, it.val)
+			}
+		} else {
+			o := merklize.Options{Hasher: it.hs.H}
+			if r.Chance(30) {
+				p, err = o.NewPath("urn:c04:list", i, fmt.Sprintf("urn:c04:h%d", i))
+			} else {
+				p, err = o.NewPath(fmt.Sprintf("urn:c04:h%d", i))
+			}
+			if err == nil {
+				e, err = o.NewRDFEntry(p, it.val)
+			}
+		}
+		if err != nil {
+			fail("no entry can be made for %s: %v", it.desc, err)
+			continue
+		}
+		it.entry, made[i] = e, true
+	}
+	var entries []merklize.RDFEntry
+	var live []*batchItem
+	for i := range items {
+		if made[i] {
+			entries = append(entries, items[i].entry)
+			live = append(live, &items[i])
+		}
+	}
+
+	// (a) every entry on its own, and the stand-alone Value of the same thing
+	keys := make([]*big.Int, len(live))
+	for i, it := range live {
+		k, kerr := it.entry.KeyMtEntry()
+		if kerr != nil || k == nil {
+			fail("key of %s does not hash: %v", it.desc, kerr)
+			k = big.NewInt(-1)
+		}
+		keys[i] = k
+		got, err := guard(5*time.Second, func() (*big.Int, error) { return it.entry.ValueMtEntry() })
+		if w, isInt := it.want.(*big.Int); isInt {
+			if err != nil || got == nil || got.Cmp(w) != 0 {
+				fail("entry %s under %s encodes as %v (%v) on its own, the statement's encoding is %v", it.desc, it.hs.Name, got, err, w)
+			}
+		} else if err == nil {
+			fail("entry %s under %s is outside every integer range (p = %v) but encodes as %v", it.desc, it.hs.Name, it.hs.Prime, got)
+		}
+		if it.dt == "" {
+			val := it.val
+			if x, isInt := val.(int); isInt {
+				val = int64(x)
+			}
+			v, err := merklize.NewValue(it.hs.H, val)
+			var got *big.Int
+			if err == nil {
+				got, err = v.MtEntry()
+			}
+			if w, isInt := it.want.(*big.Int); isInt {
+				if err != nil || got == nil || got.Cmp(w) != 0 {
+					fail("Value %s under %s encodes as %v (%v), the statement's encoding is %v", it.desc, it.hs.Name, got, err, w)
+				}
+			} else if err == nil {
+				fail("Value %s under %s is outside every integer range (p = %v) but encodes as %v", it.desc, it.hs.Name, it.hs.Prime, got)
+			}
+		}
+	}
+
+	// (b) what the call hands to the tree
+	ctx := context.Background()
+	rec := &recTree{}
+	_, aerr := guard(10*time.Second, func() (int, error) { return 0, merklize.AddEntriesToMerkleTree(ctx, rec, entries) })
+	implJ := J{}
+	switch {
+	case aerr != nil && errClass(aerr) != "err":
+		implJ = errJ(aerr)
+		fail("AddEntriesToMerkleTree: %v", aerr)
+	case hasOOR:
+		if aerr == nil {
+			fail("the batch holds an integer outside every range of its hasher's prime, but AddEntriesToMerkleTree accepts the call (%d entries: %s)", len(live), batchDesc(live))
+		}
+		implJ = J{"err": aerr != nil}
+	case aerr != nil:
+		implJ = errJ(aerr)
+		if len(why) == 0 {
+			fail("every value of the batch has an encoding, but AddEntriesToMerkleTree fails: %v", aerr)
+		}
+	default:
+		implJ = okJ(len(rec.keys))
+		given := map[string]int{}
+		byKey := map[string][]string{}
+		for i := range rec.keys {
+			given[rec.keys[i].String()+"/"+rec.vals[i].String()]++
+			byKey[rec.keys[i].String()] = append(byKey[rec.keys[i].String()], rec.vals[i].String())
+		}
+		if len(rec.keys) != len(live) {
+			fail("%d entries, %d leaves handed to the tree", len(live), len(rec.keys))
+		}
+		for i, it := range live {
+			w, isInt := it.want.(*big.Int)
+			if !isInt {
+				continue
+			}
+			id := keys[i].String() + "/" + w.String()
+			if given[id] > 0 {
+				given[id]--
+				continue
+			}
+			fail("entry %d of the call, %s under %s: the tree was given %v for its key, the statement's encoding is %v (the call held %d entries: %s)",
+				i, it.desc, it.hs.Name, byKey[keys[i].String()], w, len(live), batchDesc(live))
+		}
+	}
+
+	// (c) a real tree: the proof of every field verifies against the statement's encoding
+	realTree := false
+	if !hasOOR && aerr == nil && len(why) == 0 && r.Chance(35) {
+		realTree = true
+		distinct := map[string]bool{}
+		for i, it := range live {
+			if it.hs.Prime.Cmp(constants.Q) != 0 || distinct[keys[i].String()] {
+				realTree = false
+			}
+			distinct[keys[i].String()] = true
+		}
+	}
+	if realTree {
+		viaAdapter := r.Bool()
+		_, terr := guard(20*time.Second, func() (int, error) {
+			mt, err := merkletree.NewMerkleTree(ctx, memory.NewMemoryStorage(), 40)
+			if err != nil {
+				return 0, nil // not the library under test
+			}
+			var app interface {
+				Add(context.Context, *big.Int, *big.Int) error
+			} = mt
+			if viaAdapter {
+				app = merklize.MerkleTreeSQLAdapter(mt)
+			}
+			if err := merklize.AddEntriesToMerkleTree(ctx, app, entries); err != nil {
+				return 0, err
+			}
+			for i, it := range live {
+				proof, _, err := mt.GenerateProof(ctx, keys[i], nil)
+				if err != nil {
+					return 0, err
+				}
+				if !proof.Existence || !merkletree.VerifyProof(mt.Root(), proof, keys[i], it.want.(*big.Int)) {
+					fail("real tree: the proof of %s under %s does not verify against the statement's encoding %v (the call held: %s)", it.desc, it.hs.Name, it.want, batchDesc(live))
+				}
+			}
+			return 0, nil
+		})
+		if terr != nil {
+			fail("real tree: %v", terr)
+		}
+	}
+
+	inJ := make([]any, len(items))
+	for i, it := range items {
+		via := "hand"
+		if it.dt != "" {
+			via = "dataset"
+		}
+		inJ[i] = J{"v": it.desc, "h": it.hs.Name, "via": via, "want": fmt.Sprint(it.want)}
+	}
+	tags := []string{"tree-batch", "h:" + hs1.Name, fmt.Sprintf("entries:%d", len(items))}
+	if hs2.Name != hs1.Name {
+		tags = append(tags, "two-hashers")
+	}
+	if hasOOR {
+		tags = append(tags, "out-of-range")
+	}
+	if realTree {
+		tags = append(tags, "real-tree")
+	}
+	g.out.Emit(Case{Op: "none", In: J{"batch": inJ}, Impl: implJ, Prop: propOf(why), Tags: tags, NT: len(items) > 1})
+}
+
+func batchDesc(live []*batchItem) string {
+	var d []string
+	for _, it := range live {
+		d = append(d, it.desc)
+	}
+	s := strings.Join(d, " | ")
+	if len(s) > 600 {
+		s = s[:600] + "..."
+	}
+	return s
 }
 
 func genC04(out *Out, r *Rng, tier string, n int, shard int) {
